@@ -392,6 +392,21 @@ func run(id string, cfg propCfg, mode string, rest []string) int {
 				merged.Notes = append(merged.Notes, note)
 			}
 			for _, c := range crashers {
+				// the saved input is judged by the same worker as every other
+				// case: a listed signature (e.g. a fatal stack overflow the
+				// target itself cannot swallow) is counted, not reported
+				if vs, ok := replayViolations(bin, id, cfg, c, scratch); ok {
+					unlisted := 0
+					for _, v := range vs {
+						if !matchesAny(findings, v.Sig) {
+							unlisted++
+						}
+					}
+					if unlisted == 0 {
+						merged.Counters["native_fuzz_crashers_with_listed_signature:"+target]++
+						continue
+					}
+				}
 				dst := filepath.Join(root(), "replays", id, filepath.Base(c))
 				if err := copyFile(c, dst); err != nil {
 					dst = c
